@@ -143,6 +143,15 @@ def eval_forks(I, expr, bindings, st, scope):
 
 def truth_of(I, st, v, expr):
     if isinstance(v, Raise):
+        # a raising path of a contract expression is tolerated only if it is provably unreachable; the decision gets the large
+        # (deterministic) budget, because "undecided" here gives the whole function up
+        I._strong_prune = getattr(I, '_strong_prune', 0) + 1
+        try:
+            reachable = I.feasible(st.pc)
+        finally:
+            I._strong_prune -= 1
+        if not reachable:
+            return None
         raise EngineLimit('contract expression raises %s: %s' % (v.exc.cls, expr))
     t = I.truth(st, v)
     return t if not isinstance(t, bool) else z3.BoolVal(t)
@@ -154,6 +163,8 @@ def assume_expr(I, expr, bindings, st, scope):
     alts = []
     for st1, v in eval_forks(I, expr, bindings, st, scope):
         t = truth_of(I, st1, v, expr)
+        if t is None:
+            continue
         alts.append(st1.pc[n0:] + [t])
     if not alts:
         st.assume(z3.BoolVal(False))
@@ -167,6 +178,8 @@ def assume_expr(I, expr, bindings, st, scope):
 def prove_expr(I, expr, bindings, st, scope, kind, node=None, name=None, note=''):
     for st1, v in eval_forks(I, expr, bindings, st, scope):
         t = truth_of(I, st1, v, expr)
+        if t is None:
+            continue
         I.oblige(st1, kind, t, node=node, name=name, note=note or (expr if isinstance(expr, str) else ''))
 
 
